@@ -633,17 +633,17 @@ let prepare_copies_tolerances =
 (** val compute_sizes_table_before_vanishing_test : bool **)
 
 let compute_sizes_table_before_vanishing_test =
-  false
+  true
 
 (** val compute_guards_empty_reduce : bool **)
 
 let compute_guards_empty_reduce =
-  false
+  true
 
 (** val add_term_retries : bool **)
 
 let add_term_retries =
-  false
+  true
 
 (** val permutations3 : (((int * int) * int) * z) list **)
 
